@@ -843,6 +843,25 @@ mod tests {
     }
 
     #[test]
+    fn test_description_does_not_continue_previous_type() {
+        let schema = json!({
+            "title": "Config",
+            "type": "object",
+            "properties": {
+                "a": { "type": "string" },
+                "b": { "type": "string", "description": "[optional] second\n- item" },
+                "c": { "type": "string", "description": "in seconds" }
+            }
+        });
+
+        let output = converter().convert(&schema).annotation_text;
+        assert!(output.contains(
+            "---@field a string?\n--- \\[optional] second\n--- - item\n---@field b string?\n"
+        ));
+        assert!(output.contains("--- \\in seconds\n---@field c string?\n"));
+    }
+
+    #[test]
     fn test_description_above_field() {
         let schema = json!({
             "title": "Config",
